@@ -304,6 +304,9 @@ func runC15(c *Ctx) {
 		R.Ob(n+"/at most one command", c.P.Pos(f.Pos()), res.Max >= 0 && res.Max <= 1, fmt.Sprintf("up to %d commands on one path", res.Max))
 	}
 
+	R.Rule("R-ext-latest-ehlo", "E2+E3", "the extension map the gates consult is replaced by a fresh one on every successful EHLO and cleared by the HELO fallback: it never keeps entries of an earlier greeting", 3)
+	ruleEhloReplacesExt(c)
+
 	R.Rule("R-ext-gate", "E3 edge-feasibility", "each ESMTP parameter token is written only on the ok edge of the matching extension lookup; REQUIRETLS/SMTPUTF8 requested but not offered return an error and send nothing", 12)
 	gates := []struct{ fn, token, key string }{
 		{"(*Client).Mail", " BODY=8BITMIME", "8BITMIME"}, {"(*Client).Mail", " SIZE=", "SIZE"}, {"(*Client).Mail", " REQUIRETLS", "REQUIRETLS"},
